@@ -171,6 +171,17 @@ def make_case(tier, seed, index):
                     values[q][pop] = {"t": [y0, y1], "v": [gen._f(a) if False else a, b]}
                     continue
             values[q][pop] = {"a": v}
+    # a fraction of the whole population above 1 (directly, or through its calibration factor): no assignment exists, so the
+    # run has to be refused - silently capping it at 100% would start the run from other numbers than the databook's
+    if "frac" in entered and rng.random() < 0.2:
+        cls = "fraction-above-one"
+        pop = pops[int(rng.integers(0, len(pops)))]
+        if rng.random() < 0.5:
+            values["frac"][pop] = {"a": float(rng.uniform(1.05, 2.5)) / (yf.get("frac", {}).get(pop, 1.0))}
+        else:
+            values["frac"][pop] = {"a": float(rng.uniform(0.45, 0.9))}
+            yf["frac"] = dict(yf.get("frac", {p_: 1.0 for p_ in pops}))
+            yf["frac"][pop] = float(rng.choice([2.5, 3.0, 4.0]))
     spec["values"] = values
     spec["yfactors"] = yf
     spec["years"] = sorted(set(years) | {float(np.floor(start)) - 1.0, float(np.floor(start)) + 2.0})
